@@ -25,6 +25,10 @@ def step(k, x):
     if os.path.exists(os.path.join(HERE, 'block-%d' % k)):
         open(os.path.join(HERE, 'inside-%d' % k), 'w').close()
         try:
+            if os.path.exists(os.path.join(HERE, 'block-in-syscall')):
+                # the task function waits inside ONE system call (an external program, a socket, a pipe): nothing arrives before the stop request
+                _r, _w = os.pipe()
+                os.read(_r, 1)
             while os.path.exists(os.path.join(HERE, 'block-%d' % k)):
                 time.sleep(0.01)
         finally:
@@ -99,7 +103,7 @@ def lock_files(d):
     return sorted(os.listdir(p)) if os.path.exists(p) else []
 
 
-def signal_case(n, victim_k, sig, extra_args=(), env_extra=None, jugdir_prefix='', repeat=False, barrier=False, broken_stdio=False, set_jugdir=False):
+def signal_case(n, victim_k, sig, extra_args=(), env_extra=None, jugdir_prefix='', repeat=False, barrier=False, broken_stdio=False, set_jugdir=False, in_syscall=False):
     """run `jug execute`, deliver `sig` while the worker is inside step(victim_k); then inspect, then let a second worker finish.
     returns a dict of observations"""
     d = core.scratch_dir('jugproc-')
@@ -116,6 +120,8 @@ def signal_case(n, victim_k, sig, extra_args=(), env_extra=None, jugdir_prefix='
         open(os.path.join(d, 'block-%d' % victim_k), 'w').close()
         if barrier:
             open(os.path.join(d, 'with-barrier'), 'w').close()
+        if in_syscall:
+            open(os.path.join(d, 'block-in-syscall'), 'w').close()
         common = ['--will-cite', '--nr-wait-cycles', '2', '--wait-cycle-time', '0'] + list(extra_args)
         rfd = None
         if broken_stdio:
@@ -140,6 +146,8 @@ def signal_case(n, victim_k, sig, extra_args=(), env_extra=None, jugdir_prefix='
         if rfd is not None:
             os.close(rfd)
             rfd = None
+        if in_syscall:
+            time.sleep(0.3)         # let it get into the system call
         p.send_signal(sig)
         if repeat:
             # an impatient user / batch system repeats the request while the task function is still unwinding
@@ -150,12 +158,12 @@ def signal_case(n, victim_k, sig, extra_args=(), env_extra=None, jugdir_prefix='
             if p.poll() is None:
                 p.send_signal(sig)
         try:
-            out1 = p.communicate(timeout=120)[0] or ''       # generous: the machine may be heavily loaded; a worker that ignores the signal never ends
+            out1 = p.communicate(timeout=(45 if in_syscall else 120))[0] or ''       # generous: the machine may be heavily loaded; a worker that ignores the signal never ends
         except subprocess.TimeoutExpired:
             p.kill()
             out1 = p.communicate()[0] or ''
             os.unlink(os.path.join(d, 'block-%d' % victim_k)) if os.path.exists(os.path.join(d, 'block-%d' % victim_k)) else None
-            return {'error': 'worker did not end after signal %s%s' % (sig, ' (its output pipe had lost its reader)' if broken_stdio else ''), 'out': out1[-500:]}
+            return {'error': 'worker did not end after signal %s%s%s' % (sig, ' (its output pipe had lost its reader)' if broken_stdio else '', ' (its task function was waiting inside a system call - reading a pipe -: the request is only acted upon when that call returns by itself, and a batch system sends SIGKILL long before)' if in_syscall else ''), 'out': out1[-500:]}
         obs = {'rc1': p.returncode, 'locks_after_signal': lock_files(d)}
         calls = read_calls(d)
         obs['calls_before'] = calls
@@ -233,6 +241,13 @@ def stop_family(run, rng, n=4):
         run.count('process_mode_stop_cases')
         if i == 0:
             run.sample({'process_mode': params, 'observed': {k: v for k, v in obs.items() if k in ('rc1', 'locks_after_signal', 'rc2', 'value', 'expected')}})
+    # the stop request arrives while the task function waits inside one long system call
+    for j, sig in enumerate([signal.SIGTERM, signal.SIGINT][:max(1, n // 4)]):
+        params = {'sig': int(sig), 'k': 2, 'args': [], 'n': 4, 'in_syscall': True}
+        obs = signal_case(4, 2, sig, [], in_syscall=True)
+        judge_stop(run, obs, params)
+        run.case(('proc-stop-in-syscall', j, run.seed), nontrivial='error' not in obs)
+        run.count('process_mode_stop_cases')
     # the stop request arrives when the worker's output pipe has lost its reader (the log collector of the batch system went first)
     for j, args in enumerate([['--keep-going', '--keep-failed'], []][:max(1, n // 4)]):
         params = {'sig': int(signal.SIGTERM), 'k': 2, 'args': args, 'n': 4, 'broken_stdio': True}
